@@ -245,7 +245,7 @@ func startSvc(store db.KeyValueStore, floor *pruner.RetentionFloor, c consts, ba
 // admit waits for the next invocation of `handler` to arrive at the gate and lets it run;
 // invocations of other handlers arriving meanwhile (timer-driven samples, barriers) are rejected.
 func (s *svc) admit(handler string) error {
-	deadline := time.After(120 * time.Second)
+	deadline := time.After(40 * time.Second)
 	for {
 		select {
 		case a := <-s.gate.arrivals:
@@ -257,7 +257,7 @@ func (s *svc) admit(handler string) error {
 		case <-s.done:
 			return errors.New("prune engine: the pruner service ended unexpectedly")
 		case <-deadline:
-			return errTimeout
+			return timeoutErr("admit " + handler)
 		}
 	}
 }
@@ -265,7 +265,7 @@ func (s *svc) admit(handler string) error {
 // settle returns once the previously admitted handler has returned: a head event sent now can
 // only reach the gate after it (the service loop is a single goroutine); it is rejected there.
 func (s *svc) settle() error {
-	deadline := time.After(120 * time.Second)
+	deadline := time.After(40 * time.Second)
 	s.headFeed.Send(&core.Block{Header: &core.Header{Number: 0}})
 	for {
 		select {
@@ -277,7 +277,7 @@ func (s *svc) settle() error {
 		case <-s.done:
 			return nil
 		case <-deadline:
-			return errTimeout
+			return timeoutErr("settle")
 		}
 	}
 }
@@ -289,7 +289,7 @@ func (s *svc) stop() error {
 }
 
 func (s *svc) waitDone() error {
-	deadline := time.After(120 * time.Second)
+	deadline := time.After(40 * time.Second)
 	for {
 		select {
 		case a := <-s.gate.arrivals:
@@ -297,7 +297,7 @@ func (s *svc) waitDone() error {
 		case <-s.done:
 			return nil
 		case <-deadline:
-			return errTimeout
+			return timeoutErr("waitDone")
 		}
 	}
 }
@@ -361,9 +361,17 @@ func newWorld(c consts, seed int64, newState bool, backend string) (*world, erro
 	return w, w.startService()
 }
 
+func timeoutErr(where string) error {
+	buf := make([]byte, 1<<16)
+	n := runtime.Stack(buf, true)
+	return fmt.Errorf("%w (%s)\n%s", errTimeout, where, buf[:n])
+}
+
 func (w *world) close() {
 	if w.svc != nil {
-		_ = w.svc.stop()
+		if err := w.svc.stop(); err != nil {
+			panic(err)
+		}
 	}
 	if w.dir != "" {
 		if c, ok := w.raw.(interface{ Close() error }); ok {
